@@ -75,7 +75,7 @@ def basis_c(b):
 
 def ctor_c(k):
     return '(Build_ctor_d (Build_dt_d %s %s) %s %s %s)' % (
-        B(k['dt_haslen']), lst([{'pos': 'DPos', 'zero': 'DZero', 'neg': 'DNeg', 'complex': 'DComplex'}[v] for v in k['dt']]),
+        B(k['dt_haslen']), lst([{'pos': 'DPos', 'zero': 'DZero', 'neg': 'DNeg', 'complex': 'DComplex', 'nan': 'DNonFinite', 'inf': 'DNonFinite'}[v] for v in k['dt']]),
         H_c(k['Hc']), H_c(k['Hn']), basis_c(k['basis']))
 
 
@@ -107,10 +107,15 @@ def herm_tag(tag, d):
 
 
 def basis_tag(tag, d):
+    """tag 0: Pauli / GGM; tags >= 1: complete orthonormal bases that all have btype 'Custom' and the same
+    shape but different entries (the GGM basis rotated by a tag-dependent unitary)"""
     if tag == 0:
         n = int(round(np.log2(d)))
         return ff.Basis.pauli(n) if 2 ** n == d else ff.Basis.ggm(d)
-    return ff.Basis.from_partial([herm_tag(100 + tag, d)], traceless=False)
+    import scipy.linalg as sla
+    U = sla.expm(-1j * (0.3 + 0.4 * tag) * herm_tag(100 + tag, d) / 3.0)
+    g = np.asarray(ff.Basis.ggm(d)).view(np.ndarray)
+    return ff.Basis(np.array([U @ C @ U.conj().T for C in g]), btype='Custom')
 
 
 def dt_tag(tag, n=2):
@@ -155,8 +160,9 @@ def real_H(H, seed):
     return out
 
 
-def real_ctor(k, seed=0):
-    vals = {'pos': 0.75, 'zero': 0.0, 'neg': -1.0, 'complex': 1j}
+def real_ctor(k, seed=None):
+    seed = k.get('seed', 0) if seed is None else seed
+    vals = {'pos': 0.75, 'zero': 0.0, 'neg': -1.0, 'complex': 1j, 'nan': float('nan'), 'inf': float('inf')}
     if not k['dt_haslen']:
         dt = k.get('dt_obj', 1.0)
     else:
@@ -232,10 +238,17 @@ def ctor_corruptions(k):
     c['dt_haslen'] = False
     out.append(('dt-no-len', ('TypeError',), c))
     for i in range(n_dt):
-        for v, nm in (('neg', 'dt-negative'), ('complex', 'dt-complex')):
+        for v, nm, sig in (('neg', 'dt-negative', None), ('complex', 'dt-complex', None),
+                           ('nan', 'dt-nan', 'c20-ctor-nonfinite-dt'), ('inf', 'dt-inf', 'c20-ctor-nonfinite-dt')):
             c = copy.deepcopy(k)
             c['dt'][i] = v
-            out.append((nm, ('ValueError',), c))
+            out.append((nm, ('ValueError',), c) if sig is None else (nm, ('ValueError',), c, sig))
+    c = copy.deepcopy(k)              # no time step at all (coefficient arrays empty as well)
+    c['dt'] = []
+    for which in ('Hc', 'Hn'):
+        for e in c[which]:
+            e['coeff'] = 0
+    out.append(('dt-empty', ('ValueError',), c, 'c20-ctor-empty-dt'))
     for which in ('Hc', 'Hn'):
         c = copy.deepcopy(k)
         c[which] = None
@@ -328,6 +341,15 @@ def concat_corruptions(ps):
             c = copy.deepcopy(ps)
             c[i]['basis'] = 1
             out.append(('different-basis', ('ValueError',), c))
+            # same basis type ('Custom') and shape, different entries: every pulse on basis 1, pulse i on basis 2
+            c = copy.deepcopy(ps)
+            for q in c:
+                q['basis'] = 1
+            ok_custom = copy.deepcopy(c)
+            c[i]['basis'] = 2
+            out.append(('different-basis-same-type-and-shape', ('ValueError',), c))
+            if i == 0:
+                out.append(('same-custom-basis', (), ok_custom))
             for kind in ('c', 'n'):
                 for j in range(len(ps)):
                     if j == i:
@@ -401,6 +423,8 @@ def gen_extend(r, n=None):
 
 
 def qubits_c(q):
+    if q[0] == 'float':
+        return 'QNonInt'
     return '(QInt %s)' % N(q[1]) if q[0] == 'int' else '(QTuple %s)' % nats(q[1])
 
 
@@ -414,7 +438,7 @@ def real_extend(x):
     mapping = []
     for e in x['entries']:
         p = real_pulse(e['pulse'], n_dt=x['ndt'])
-        q = e['qubits'][1] if e['qubits'][0] == 'int' else tuple(e['qubits'][1])
+        q = e['qubits'][1] if e['qubits'][0] in ('int', 'float') else tuple(e['qubits'][1])
         mapping.append((p, q) if e['mapping'] is None else (p, q, e['mapping']))
     kw = dict(N=x['N'], d_per_qubit=x['dpq'], cache_diagonalization=x['cache_diag'], cache_filter_function=x['cache_ff'])
     if x['add'] is not None:
@@ -425,7 +449,7 @@ def real_extend(x):
 
 
 def total_qubits(x):
-    last = max(q for e in x['entries'] for q in ([e['qubits'][1]] if e['qubits'][0] == 'int' else e['qubits'][1]))
+    last = max(q for e in x['entries'] for q in ([e['qubits'][1]] if e['qubits'][0] in ('int', 'float') else e['qubits'][1]))
     return x['N'] if x['N'] is not None else last + 1
 
 
@@ -452,6 +476,10 @@ def extend_corruptions(x):
                     else:
                         mut(lambda e: e.update(qubits=('tuple', [qj0, e['qubits'][1][1]]) if qj0 != e['qubits'][1][1] else e['qubits']), 'qubit-clash')
         mut(lambda e: e.update(mapping={'zz': 'a'}), 'mapping-unknown-identifier', DOC)
+        mut(lambda e: e['pulse'].update(ispulse=False), 'not-a-pulse', ('TypeError',))
+        if single:
+            q0 = x['entries'][i]['qubits'][1] if x['entries'][i]['qubits'][0] == 'int' else x['entries'][i]['qubits'][1][0]
+            mut(lambda e: e.update(qubits=('float', q0 + 0.5)), 'non-integer-qubit', ('TypeError',))
     last = max(q for e in x['entries'] for q in ([e['qubits'][1]] if e['qubits'][0] == 'int' else e['qubits'][1]))
     out.append(('register-too-small', ('ValueError',), dict(copy.deepcopy(x), N=last)))
     D = 2 ** Nq
@@ -714,8 +742,13 @@ def small_cases(r):
             d2 = ('ValueError',) if which == 'foo' else doc
             out.append(('pc-filter-function', 'validate_get_pc_filter_function %s %s' % (pulse_c(p), s_(which)),
                         (lambda q, w: (lambda: real_pulse(q).get_pulse_correlation_filter_function(w)))(p, which), d2))
-    out.append(('concatenate-periodic', 'validate_concat_periodic %s' % pulse_c(p_plain), lambda: ff.concatenate_periodic(real_pulse(p_plain), 2), ()))
-    out.append(('concatenate-periodic', 'validate_concat_periodic %s' % pulse_c(dict(p_plain, ispulse=False)),
+    for rep in (1, 2, 5):
+        out.append(('concatenate-periodic', 'validate_concat_periodic %s (%d)%%Z' % (pulse_c(p_plain), rep),
+                    (lambda n: (lambda: ff.concatenate_periodic(real_pulse(p_plain), n)))(rep), ()))
+    for rep in (0, -1, -3):
+        out.append(('concatenate-periodic-repeats', 'validate_concat_periodic %s (%d)%%Z' % (pulse_c(p_plain), rep),
+                    (lambda n: (lambda: ff.concatenate_periodic(real_pulse(p_plain), n)))(rep), ('ValueError',), 'c20-periodic-nonpositive-repeats'))
+    out.append(('concatenate-periodic', 'validate_concat_periodic %s 2%%Z' % pulse_c(dict(p_plain, ispulse=False)),
                 lambda: ff.concatenate_periodic(5, 2), ('TypeError',)))
     for val, allowed, call in (
             ('fidelity', ['fidelity', 'generalized'], lambda v: real_pulse(p_plain).get_filter_function(omega_tag(0), which=v)),
@@ -811,12 +844,13 @@ def collect_cases(ctx, thorough):
     n_base = 12 if thorough else 3
     for b in range(n_base):
         k = gen_ctor(r)
-        col.case('constructor', 'valid', 'validate_ctor %s' % ctor_c(k), (lambda kk: (lambda: ff.PulseSequence(*real_ctor(kk, b))))(k), (), k)
-        for nm, doc, c in ctor_corruptions(k):
-            col.case('constructor', nm, 'validate_ctor %s' % ctor_c(c), (lambda kk: (lambda: ff.PulseSequence(*real_ctor(kk, b))))(c), doc, c)
+        k['seed'] = b
+        col.case('constructor', 'valid', 'validate_ctor %s' % ctor_c(k), (lambda kk: (lambda: ff.PulseSequence(*real_ctor(kk))))(k), (), k)
+        for nm, doc, c, *sig in ctor_corruptions(k):
+            col.case('constructor', nm, 'validate_ctor %s' % ctor_c(c), (lambda kk: (lambda: ff.PulseSequence(*real_ctor(kk))))(c), doc, c, *sig)
         if b == 0:
             for nm, doc, c, sig in ctor_extra(k):
-                col.case('constructor', nm, 'validate_ctor %s' % ctor_c(c), (lambda kk: (lambda: ff.PulseSequence(*real_ctor(kk, b))))(c), doc, c, sig)
+                col.case('constructor', nm, 'validate_ctor %s' % ctor_c(c), (lambda kk: (lambda: ff.PulseSequence(*real_ctor(kk))))(c), doc, c, sig)
     for b in range(n_base):
         ps = gen_pulses(r, m=1 + (b + 1) % 3)
         for kw in (dict(), dict(calc_ff=False), dict(omega_given=True, calc_pc=True)):
@@ -839,7 +873,9 @@ def collect_cases(ctx, thorough):
         col.case('extend', 'valid', 'validate_extend %s' % extend_c(x), real_extend(x), (), x)
         for nm, doc, c in extend_corruptions(x):
             sig = {'mapping-unknown-identifier': 'c20-mapping-unknown-identifier-keyerror',
-                   'mapping-duplicate-identifiers': 'c20-mapping-duplicate-identifiers-accepted'}.get(nm)
+                   'mapping-duplicate-identifiers': 'c20-mapping-duplicate-identifiers-accepted',
+                   'not-a-pulse': 'c20-extend-non-pulse-attributeerror',
+                   'non-integer-qubit': 'c20-extend-noninteger-qubit'}.get(nm)
             col.case('extend', nm, 'validate_extend %s' % extend_c(c), real_extend(c), doc, c, sig)
         m = gen_remap(r)
         col.case('remap', 'valid', 'validate_remap %s' % remap_c(m), real_remap(m), (), m)
@@ -861,8 +897,8 @@ def collect_cases(ctx, thorough):
             col.case('error-transfer-matrix', nm, lit, call, doc, dict(expr=lit))
         for nm, c, doc in infidelity_option_cases(a):
             col.case('infidelity', nm, 'validate_infidelity %s' % analysis_c(c), real_analysis(c, 'infidelity'), doc, c)
-    for nm, lit, call, doc in small_cases(r):
-        col.case('misc', nm, lit, call, doc, dict(expr=lit))
+    for nm, lit, call, doc, *sig in small_cases(r):
+        col.case('misc', nm, lit, call, doc, dict(expr=lit), *sig)
     return col
 
 
@@ -887,25 +923,57 @@ def run(ctx):
                 samples=samples, failures=failures, classes=col.classes, corr=dict(entries_agree=agree, entries_disagree=dis))
 
 
-def find_case(ctx, inp):
-    col = collect_cases(ctx, True)
-    for (nm, txt), m in zip(col.defs, col.meta):
-        if m[0] == inp.get('group') and m[1] == inp.get('case') and jsonable(m[2]['descriptor']) == inp.get('descriptor'):
-            return m
+def unjson(x):
+    """descriptor read back from a replay file"""
+    if isinstance(x, dict):
+        return {k: unjson(v) for k, v in x.items()}
+    if isinstance(x, list):
+        return [unjson(v) for v in x]
+    return E.ABSENT if x == 'ABSENT' else x
+
+
+def realise(group, d):
+    """callable for a descriptor of the given group, or None"""
+    if group == 'constructor':
+        return lambda: ff.PulseSequence(*real_ctor(d))
+    if group == 'concatenate':
+        return real_concat(d)
+    if group == 'concatenate-without-ff':
+        return lambda: ff.pulse_sequence.concatenate_without_filter_function([real_pulse(p, 2 + i % 2) for i, p in enumerate(d)])
+    if group == 'extend':
+        for e in d['entries']:
+            e['qubits'] = tuple(e['qubits'])
+        return real_extend(d)
+    if group == 'remap':
+        return real_remap(d)
+    if group in ('infidelity', 'decay'):
+        return real_analysis(d, group)
+    if group == 'cumulant':
+        return real_cumulant(d)
     return None
+
+
+def find_case(ctx, inp):
+    for thorough in (False, True):
+        col = collect_cases(ctx, thorough)
+        for m in col.meta:
+            if m[0] == inp.get('group') and m[1] == inp.get('case') and jsonable(m[2]['descriptor']) == inp.get('descriptor'):
+                return m[2]['observed']
+    return 'not-found'
 
 
 def replay(ctx, rep):
     inp = rep.get('input')
     if not inp:
         return False, 'replay names a broken obligation: %s' % rep.get('observable')
-    m = find_case(ctx, inp)
-    if m is None:
-        return False, 'replay: case %s/%s not regenerated with this seed' % (inp.get('group'), inp.get('case'))
-    obs, doc = m[2]['observed'], tuple(inp.get('documented', []))
+    call = realise(inp.get('group'), unjson(inp.get('descriptor')))
+    obs = run_call(call) if call is not None else find_case(ctx, inp)
+    if obs == 'not-found':
+        return False, 'replay: case %s/%s could not be regenerated' % (inp.get('group'), inp.get('case'))
+    doc = tuple(inp.get('documented', []))
     ok = (obs is None) if doc == () else (obs in doc)
-    return ok, 'replay %s/%s: observed %s, documented %s -> %s' % (m[0], m[1], obs or 'accepted', '/'.join(doc) or 'accepted',
-                                                               'holds' if ok else 'reproduces')
+    return ok, 'replay %s/%s: observed %s, documented %s -> %s' % (inp.get('group'), inp.get('case'), obs or 'accepted',
+                                                               '/'.join(doc) or 'accepted', 'holds' if ok else 'reproduces')
 
 
 def search(ctx, broken):
